@@ -108,3 +108,18 @@ def loop_body(modname, qualname, params, ret, name='_sliced_body', which=0):
     loc = {}
     exec(compile(mod, fn, 'exec'), ns, loc)
     return loc[name], ast.unparse(w.test), ast.unparse(mod)
+
+
+def nested_func(modname, qualname, name=None):
+    """the (possibly nested) function `qualname` (dotted path through classes / enclosing functions) as it is in the
+    current source, compiled on its own in the instrumented module namespace (it must not use enclosing locals)"""
+    src, fn = _source(modname)
+    tree = ast.parse(src)
+    f = _find_func(tree, qualname)
+    new = ast.FunctionDef(name=name or f.name, args=f.args, body=f.body, decorator_list=[], returns=None, type_comment=None)
+    mod = ast.Module(body=[new], type_ignores=[])
+    ast.fix_missing_locations(mod)
+    ns = loader.mod(modname).__dict__
+    loc = {}
+    exec(compile(mod, fn, 'exec'), ns, loc)
+    return loc[new.name], ast.unparse(mod)
